@@ -405,7 +405,7 @@ class SymSet:
     def __init__(self, member, name="set", sort=None):
         self.member = member
         self.name = name
-        self.sort = sort or z3.IntSort()
+        self.sort = z3.IntSort() if sort is None else sort
 
     def __repr__(self):
         return f"SymSet<{self.name}>"
@@ -415,10 +415,10 @@ def as_symmap(d, ksort=None, vsort=None, name="map"):
     """View a concrete dict with scalar keys/values as a SymMap."""
     if isinstance(d, SymMap):
         return d
-    ksort = ksort or z3.IntSort()
-    vsort = vsort or z3.IntSort()
+    ksort = z3.IntSort() if ksort is None else ksort
+    vsort = z3.IntSort() if vsort is None else vsort
     dom = z3.K(ksort, z3.BoolVal(False))
-    val = z3.K(vsort if False else ksort, z3.IntVal(0)) if False else z3.K(ksort, (z3.RealVal(0) if vsort == z3.RealSort() else z3.IntVal(0)))
+    val = z3.K(ksort, (z3.RealVal(0) if vsort == z3.RealSort() else z3.IntVal(0)))
     for k, v in d.items():
         kt = to_term(k)
         vt = to_term(v, "real") if vsort == z3.RealSort() else to_term(v)
